@@ -97,6 +97,25 @@ def unexcited_cases(rng):
             yield {'spec': stage, 'nx': nx, 'nu': nu, 'ep': ep, 'rows': rows, 'min_len': m, 'form': 'c', 'degenerate': True}
 
 
+def opaque_sweep(rng):
+    """every centre generator (QMC: every engine, sample counts that are and are not powers of two) and every kernel
+    approximation (incl. more components than samples), alone and before a polynomial stage, with at least one input"""
+    specs = []
+    for c in ('grid', 'uniform', 'data', 'gaussian'):
+        specs.append({'k': 'rbf', 'centers': c, 'rbf': 'gaussian', 'shape': 1, 'seed': 3, 'n': 3, 'ppf': 2, 'n_feat': 3, 'n_out': 3})
+    for eng in (None, 'sobol', 'halton'):
+        for n in (3, 4, 5):
+            specs.append({'k': 'rbf', 'centers': 'qmc', 'engine': eng, 'rbf': 'gaussian', 'shape': 1, 'seed': 3, 'n': n, 'n_out': n})
+    for m, n in (('rff', 2), ('binning', 2), ('rbfsampler', 3), ('nystroem', 3), ('nystroem', 100)):
+        specs.append({'k': 'kernel', 'method': m, 'n': n, 'seed': 5, 'rff_method': 'weight_offset', 'kernel': 'gaussian', 'n_out': n})
+    for sp in specs:
+        for wrap in (False, True):
+            spec = {'k': 'pipe', 'ss': [sp, {'k': 'poly', 'order': 2, 'io': False}]} if wrap else sp
+            ep = rng.random() < 0.5
+            rows = [([0] if ep else []) + [round(rng.uniform(-2, 2), 3) for _ in range(3)] for _ in range(7)]
+            yield {'spec': spec, 'nx': 2, 'nu': 1, 'ep': ep, 'rows': rows, 'min_len': 1, 'form': 'c', 'degenerate': False}
+
+
 def oracle(case, rng, est=None):
     try:
         return _oracle(case, rng, est)
@@ -151,6 +170,11 @@ def run(ctx):
         why = oracle(c, ctx.rng)
         if why:
             ctx.fail(why + ' (estimator fitted on data with identically zero input columns)', c, st.case_tags(c))
+    for c in opaque_sweep(ctx.rng):
+        ctx.count('opaque-stage sweep')
+        why = oracle(c, ctx.rng)
+        if why:
+            ctx.fail(why, c, st.case_tags(c))
     replies = drv.ask(lines)
     bad = []
     for i, (c, est, Xt, cells, reg) in enumerate(meta):
